@@ -8,10 +8,12 @@ def run(chk):
                 'trashes holding the same base name in different directories and volumes, in home and volume trash '
                 'directories, with infos without payload; the concrete pattern is a glob-escaped literal / glob and '
                 'the names come from a pool with glob metacharacters, case variants and prefix siblings; '
-                'non-trivial = something was removed; all generated cases are executed')
+                'non-trivial = something was removed; all generated cases are executed. Pattern stage: random patterns (literals, *, ?, [set], [!set], ranges, unclosed [, leading /) against name sets with case variants, metacharacters in names, multi-byte characters, equal base names in different directories and volumes; the set removed by the real trash-rm is judged by TLC evaluating Match (Glob.tla) on the same code points')
     chk.assumptions += common.ASSUME
     common.mc(chk, properties=['PurgeFrame'])
     common.gen_tt(chk, 'rm', 'Init_Many', 'Next_Rm', 6, None, thorough_seeds=6)
+    common.fun_laws(chk)
+    common.fun_stage(chk, 'patterns', 'rm', 150 if chk.tier == 'quick' else 4000)
     chk.exhaustive = True
 
 
